@@ -413,12 +413,6 @@ example :
 theorem C12_gen_serverClose : Generated.pooledServerClose = some ["if-serving:shutdown", "server_close", "pool.stop"] := by decide
 theorem C12_gen_serveFlag : Generated.pooledServeForeverSetsFlag = some (true, true) := by decide
 theorem C12_gen_processRequest : Generated.pooledProcessRequestEnqueues = some true := by decide
-/-- Tie of `C12_pool_instantiation` to the source of the request pool: the facts of `ThreadPool` that the pool model's
-    hand-off of tasks (growth, retirement, accounting, lock discipline) encodes — the same facts C09 is tied by. -/
-theorem C12_gen_poolRetireRule : Generated.poolRetireRule = some JRV.Pool.retireRuleSpec := by decide
-theorem C12_gen_poolGrowthRule : Generated.poolGrowthRule = some JRV.Pool.growthRuleSpec := by decide
-theorem C12_gen_poolPendingStores : Generated.poolPendingStores = some JRV.Pool.pendingStoresSpec := by decide
-theorem C12_gen_poolUnlockedAccesses : Generated.poolUnlockedAccesses = some JRV.Pool.unlockedAccessesSpec := by decide
 
 /- Non-vacuity: serve, accept two connections, close while one request is in flight. -/
 example : ((run (fun b => b + 100) init
